@@ -325,6 +325,10 @@ theorem recvRecvHeaders_cl (s : Streams) (k : Nat) (h : HeadersIn) (cl0 : Conten
   split at hok
   · cases hok
   · rename_i st' i heq
+    split at hok
+    · cases hok
+    rename_i hnr
+    rw [if_neg hnr]
     have c1 := rhPre_sameCL s k h st' i
     generalize rhPre s k h st' i = s1 at c1 hok ⊢
     have live1 : clOf s1 k = some cl0 := by rw [c1 k]; exact live
